@@ -455,3 +455,122 @@ Definition covered (cs : contracts) (deleg : list (string * list delegate)) (nam
                         end) (wiring d))
           (match assoc deleg name with Some ds => ds | None => [] end).
 
+
+(* ==== canonical documented forms and the symbolic reading of a contract (all-shapes strictness) ====================
+   A canonical form says, per argument, None / a Python number / an array whose every dimension is a literal, an
+   external length (self.num_e) or EQUAL TO THE DIMENSION AT A NAMED POSITION (argument, axis) -- the first occurrence
+   of its length symbol.  The semantics is declarative: no order, no unification. *)
+Inductive cdim := CInt (n : nat) | CRef (a : string) (i : nat) | CExt (x : string).
+Inductive cshape := CNone | CNumber | CArr (ds : list cdim).
+Definition cform := list (string * cshape).
+
+Definition dim_of (args : aenv) (a : string) (i : nat) : option nat :=
+  match args a with AArr s => nth_error s i | _ => None end.
+Definition cdim_val (b0 : benv) (args : aenv) (d : cdim) : option nat :=
+  match d with CInt n => Some n | CRef a i => dim_of args a i | CExt x => lookup b0 x end.
+Definition cdim_ok (b0 : benv) (args : aenv) (d : cdim) (n : nat) : bool :=
+  match cdim_val b0 args d with Some m => Nat.eqb n m | None => false end.
+Fixpoint all2b {A B} (f : A -> B -> bool) (l : list A) (m : list B) : bool :=
+  match l, m with [], [] => true | x :: l', y :: m' => f x y && all2b f l' m' | _, _ => false end.
+Definition cshape_ok (b0 : benv) (args : aenv) (cs : cshape) (v : argv) : bool :=
+  match cs, v with
+  | CNone, ANone => true
+  | CNumber, ANumber => true
+  | CArr ds, AArr s => all2b (cdim_ok b0 args) ds s
+  | _, _ => false
+  end.
+Definition cform_ok (b0 : benv) (args : aenv) (f : cform) : bool :=
+  forallb (fun p : string * cshape => cshape_ok b0 args (snd p) (args (fst p))) f.
+Definition in_cforms (b0 : benv) (fs : list cform) (args : aenv) : bool := existsb (cform_ok b0 args) fs.
+
+(* canonical form of a documented form: a length symbol becomes a reference to its first occurrence (or an external) *)
+Fixpoint canon_dims (ext : list string) (seen : list (string * cdim)) (a : string) (i : nat) (ds : list fdim)
+  : list cdim * list (string * cdim) :=
+  match ds with
+  | [] => ([], seen)
+  | FInt n :: r => let '(out, seen') := canon_dims ext seen a (S i) r in (CInt n :: out, seen')
+  | FSym x :: r =>
+      if existsb (String.eqb x) ext then let '(out, seen') := canon_dims ext seen a (S i) r in (CExt x :: out, seen')
+      else match assoc seen x with
+           | Some c => let '(out, seen') := canon_dims ext seen a (S i) r in (c :: out, seen')
+           | None => let '(out, seen') := canon_dims ext ((x, CRef a i) :: seen) a (S i) r in (CRef a i :: out, seen')
+           end
+  end.
+Fixpoint canon_form (ext : list string) (seen : list (string * cdim)) (f : form) : cform :=
+  match f with
+  | [] => []
+  | (a, FNone) :: r => (a, CNone) :: canon_form ext seen r
+  | (a, FNumber) :: r => (a, CNumber) :: canon_form ext seen r
+  | (a, FArr ds) :: r => let '(out, seen') := canon_dims ext seen a 0 ds in (a, CArr out) :: canon_form ext seen' r
+  end.
+Definition canon (ext : list string) (f : form) : cform := canon_form ext [] f.
+
+(* symbolic execution of a contract: contract variables are bound to canonical dimensions *)
+Definition senv := list (string * option cdim).
+Fixpoint slookup (sg : senv) (x : string) : option cdim :=
+  match sg with [] => None | (y, v) :: r => if String.eqb x y then v else slookup r x end.
+Definition sym_dim (sg : senv) (a : string) (i : nat) (d : dim) : option cdim :=
+  match d with
+  | DInt n => Some (CInt n)
+  | DAny => Some (CRef a i)
+  | DVar x => slookup sg x
+  | DVarOrAny x => match slookup sg x with Some c => Some c | None => Some (CRef a i) end
+  end.
+Fixpoint sym_pat (sg : senv) (a : string) (i : nat) (p : pattern) : option (list cdim) :=
+  match p with
+  | [] => Some []
+  | d :: p' => match sym_dim sg a i d, sym_pat sg a (S i) p' with
+               | Some c, Some r => Some (c :: r)
+               | _, _ => None
+               end
+  end.
+Definition swild (sg : senv) (d : dim) : bool :=
+  match d with
+  | DAny => true
+  | DVarOrAny x => match slookup sg x with None => true | Some _ => false end
+  | _ => false
+  end.
+Fixpoint wild_pos (sg : senv) (i : nat) (p : pattern) : list nat :=
+  match p with
+  | [] => []
+  | d :: p' => if swild sg d then i :: wild_pos sg (S i) p' else wild_pos sg (S i) p'
+  end.
+Definition sbind (sg : senv) (bd : option string) (v : option cdim) : senv :=
+  match bd with Some x => (x, v) :: sg | None => sg end.
+Definition swild_value (sg : senv) (a : string) (p : pattern) : option cdim :=
+  match wild_pos sg 0 p with [i] => Some (CRef a i) | _ => None end.
+Definition sym_alt (sg : senv) (a : string) (p : pattern) (bd : option string) : list (cshape * senv) :=
+  match sym_pat sg a 0 p with
+  | Some ds => [(CArr ds, sbind sg bd (swild_value sg a p))]
+  | None => []
+  end.
+Definition sym_check (c : check) (sg : senv) : list (cshape * senv) :=
+  match c with
+  | Check a p bd => sym_alt sg a p bd
+  | CheckAny a ps bd => flat_map (fun p => sym_alt sg a p bd) ps
+  | Columnize a p => match p with
+                     | [_] => (CNumber, sg) :: sym_alt sg a p None
+                     | _ => sym_alt sg a p None ++ sym_alt sg a (tl p) None
+                     end
+  | IfPresent a (Check a' p bd) => (CNone, sg) :: sym_alt sg a' p bd
+  | _ => []
+  end.
+Fixpoint forms_of_contract (cs : list check) (sg : senv) : list cform :=
+  match cs with
+  | [] => [[]]
+  | c :: r => flat_map (fun alt : cshape * senv => map (cons (check_arg c, fst alt)) (forms_of_contract r (snd alt)))
+                       (sym_check c sg)
+  end.
+
+(* the normal form: Check / CheckAny with patterns of pairwise different rank / Columnize / IfPresent a (Check a ..) *)
+Fixpoint distinct_nats (l : list nat) : bool :=
+  match l with [] => true | n :: r => negb (existsb (Nat.eqb n) r) && distinct_nats r end.
+Definition nf_ok (c : check) : bool :=
+  match c with
+  | Check _ _ _ => true
+  | CheckAny _ ps _ => match ps with [] => false | _ => distinct_nats (map (@List.length dim) ps) end
+  | Columnize _ p => match p with [] => false | _ => true end
+  | IfPresent a (Check a' _ _) => String.eqb a a'
+  | _ => false
+  end.
+Definition senv_of (b0 : benv) : senv := map (fun xv : string * option nat => (fst xv, Some (CExt (fst xv)))) b0.
